@@ -578,7 +578,7 @@ def r6_2(ctx):
 from wa.linear import linear
 
 
-from wa.symex import summarise_loop, erase, elinear, mentions_sym
+from wa.symex import summarise_loop, summarise_loop_state, state_path, descend, erase, elinear, mentions_sym
 from wa.pathsym import cond_truth
 
 
@@ -612,14 +612,22 @@ class RayWalk:
 
     def __init__(self, f, b, ex, h, item, h2, b2, board_arg, origin):
         self.b, self.h2 = b, h2
-        self.carried, self.paths = summarise_loop(f, b, ex, h2, b2, stop={h})
+        # the loop-carried state, split into components (a walk may keep its position in two locals or
+        # in one `Option<(row, col)>` / tuple / struct rebuilt on every step)
+        self.state, self.paths = summarise_loop_state(f, b, ex, h2, b2, stop={h})
+        self.carried = set(self.state)
         self.cont = [p for p in self.paths if p.end == "stop" and p.end_bb == h2]
         self.exits = [p for p in self.paths if not (p.end == "stop" and p.end_bb == h2)]
         comp = [erase(("field", item, "0")), erase(("field", item, "1"))]
+
+        def after(p, name):
+            l, path = state_path(name)
+            v = descend(p.env.get(l, ("sym", l)), path)
+            return v if v is not None else ("opaque", "shape")
         self.R = self.C = None
         self.ok_step = bool(self.cont)
-        for l in sorted(self.carried):
-            forms = {elinear(p.env.get(l, ("sym", l))) for p in self.cont}
+        for l in sorted(self.state, key=str):
+            forms = {elinear(after(p, l)) for p in self.cont}
             if len(forms) != 1:
                 continue
             fm = next(iter(forms))
@@ -630,13 +638,7 @@ class RayWalk:
                 self.ok_step = self.ok_step and self.C is None
                 self.C = l
         self.ok_step = self.ok_step and self.R is not None and self.C is not None
-        rd = b.reaching()
-
-        def init_of(l):
-            ds = [(dloc, k) for dloc, k in rd.defs(l, (h2, 0)) if k != "borrow" and (k == "entry" or dloc[0] not in b2)]
-            if len(ds) != 1 or ds[0][1] != "whole":
-                return None
-            return ex._def_expr(l, ds[0][0])
+        init_of = lambda l: self.state.get(l)
         self.ok_init = False
         self.squares = set()
         self.ok_inv = True
@@ -651,13 +653,13 @@ class RayWalk:
                     used |= {x[1] for x in subexprs(c[0]) if x[0] == "sym"}
                 for ev in p.events:
                     if ev[0] == "call":
-                        for a in ev[3]:
-                            used |= {x[1] for x in subexprs(a) if x[0] == "sym"}
-            for l in sorted(used - {self.R, self.C}):
+                        for a_ in ev[3]:
+                            used |= {x[1] for x in subexprs(a_) if x[0] == "sym"}
+            for l in sorted(used - {self.R, self.C}, key=str):
                 iX = init_of(l)
                 ok = iX is not None and square_lin(iX, board_arg) == (liR, liC) and liR is not None
                 for p in self.cont:
-                    ok = ok and square_lin(p.env.get(l, ("sym", l)), board_arg) == (elinear(p.env[self.R]), elinear(p.env[self.C]))
+                    ok = ok and square_lin(after(p, l), board_arg) == (elinear(after(p, self.R)), elinear(after(p, self.C)))
                 if ok:
                     self.squares.add(l)
                 else:
